@@ -859,11 +859,12 @@ func genRotScript(rng *vh.Rng) rotScript {
 }
 
 type rotObs struct {
-	lateSync bool // a lost tail was observed but a late sync fell into the rotation: not judged
-	fails    []vh.SpecFailure
-	skipped  string // reason the case could not be evaluated (counted in the distribution)
-	unsent   bool   // part of the old file was not yet confirmed when the rotation began
-	infraErr string
+	oldClosedEarly bool // the scanner had released the rotated-out file before its last byte was written
+	lateSync       bool // a lost tail was observed but a late sync fell into the rotation: not judged
+	fails          []vh.SpecFailure
+	skipped        string // reason the case could not be evaluated (counted in the distribution)
+	unsent         bool   // part of the old file was not yet confirmed when the rotation began
+	infraErr       string
 }
 
 // attribute splits the confirmed events into the old file's stream and the new file's stream: old content is lower
@@ -1018,6 +1019,13 @@ func runRotCase(s rotScript, verbose bool) (o rotObs) {
 		nf = open()
 		write(f, &wOld, s.Tail)
 		f.Close()
+		// observed, not presumed: does the scanner still hold the rotated-out file shortly after its last byte was
+		// written? If not, its worker had been told to stop and met its EOF before the file was complete (a sync was
+		// served inside the rotation — a loaded machine); what is appended after that is by design not collected.
+		time.Sleep(20 * time.Millisecond)
+		if fdsOn(fn+".1") == 0 {
+			o.oldClosedEarly = true
+		}
 	case "remove":
 		f.Close()
 		os.Remove(fn)
@@ -1096,8 +1104,8 @@ func runRotCase(s rotScript, verbose bool) (o rotObs) {
 				lateSync = true
 			}
 		}
-		o.lateSync = lateSync
-		if s.Mode != "truncate" && !lateSync {
+		o.lateSync = lateSync || o.oldClosedEarly
+		if s.Mode != "truncate" && !o.lateSync {
 			fail("lost-tail-on-rotation", fmt.Sprintf("%s rotation: %d bytes were written to the old file (all before the scanner's next sync); only the first %d are confirmed %v after the last progress", s.Mode, len(wOld), len(cOld), rotDrainDeadline),
 				fmt.Sprintf("confirmed=%d", len(cOld)), fmt.Sprintf("confirmed=%d missing=%s", len(wOld), short(wOld[len(cOld):])))
 		}
